@@ -65,6 +65,8 @@ def g_text(g):
         return 'call(%s)' % ','.join([t_text(g[1])] + [t_text(a) for a in g[2]])
     if k == 'pyp':
         return 'pyp(%s)' % t_text(g[1])
+    if k == 'pyt':
+        return 'pyt(%s)' % t_text(g[1])
     raise ValueError(g)
 
 def clause_text(c):
@@ -178,8 +180,8 @@ class Interp:
             return ['findall', R(g[1]), self.rename_goal(g[2], m), R(g[3])]
         if k == 'calln':
             return ['calln', R(g[1]), [R(a) for a in g[2]]]
-        if k == 'pyp':
-            return ['pyp', R(g[1])]
+        if k in ('pyp', 'pyt'):
+            return [k, R(g[1])]
         raise ValueError(g)
 
     def call(self, name, args, s):
@@ -281,6 +283,11 @@ class Interp:
                 yield from self.call(t[1], list(t[2]) + list(g[2]), s)
             else:
                 raise Cyclic()      # unspecified: goal not callable
+        elif k == 'pyt':
+            # a user predicate that binds nothing: succeeds once iff its argument is the atom a (round 4: returns a list / tuple /
+            # iterator / YPSuccess / YPFail object)
+            if walk(g[1], s) == ['a', 'a']:
+                yield s
         elif k == 'pyp':
             self.calls += 1
             if self.j is not None and self.calls == self.j:
